@@ -45,6 +45,9 @@ def run(pid, tier, seed):
     # clipped - gradient 0 - then depends on the random draw, so they are left out of this variant)
     if c["bits"] <= 3 and c["cls"] in ("bits", "linear", "relu"):
       cfgs.append(dict(c, ste=1, f=[1, 0], sr=1))
+    # ... and with stochastic rounding configured but the training phase off (deterministic rounding, every class)
+    if c["bits"] <= 3:
+      cfgs.append(dict(c, ste=1, f=[1, 0], sr=2))
   for cls in ("po2", "relu_po2"):
     for bits in (3, 4, 6):
       for mv in (None, 0, 2, -1):
@@ -63,6 +66,8 @@ def run(pid, tier, seed):
     for integer in (0, 1, 3):
       for alpha in ("auto", "auto_po2"):
         cfgs.append({"fam": "one", "kind": "bits_auto", "bits": bits, "int": integer, "alpha": alpha})
+        # quantized_linear with a data-dependent scale: the scale is a constant of the backward pass, gradient 1
+        cfgs.append({"fam": "zo", "kind": "linear_auto", "bits": bits, "int": integer, "alpha": alpha})
   results, allev = sharded_conformance(chk, "drive_grad.py", cfgs, "Trace_QGrad", tier, seed, "grad")
   for r in results:
     if r[0] == "error":
